@@ -274,7 +274,7 @@ Lemma record_path_files w p q : w_src (record_path w p) q = w_src w q /\ w_dst (
 Proof. unfold record_path. destruct (w_src w p), (w_dst w p); try (split; reflexivity). destruct (content_equal f f0); split; reflexivity. Qed.
 
 Lemma is_modified_rec_of f : is_modified f (rec_of f) = false.
-Proof. unfold is_modified, rec_of. cbn. rewrite N.eqb_refl. cbn. apply Z.ltb_irrefl. Qed.
+Proof. unfold is_modified, rec_of. cbn. rewrite N.eqb_refl. cbn. rewrite Z.ltb_irrefl. cbn. apply Z.ltb_ge. lia. Qed.
 
 (* the rows after recording: none when the path is gone, the two sides' own metadata when they agree *)
 Definition rows_fresh (w : world) (p : N) : Prop :=
@@ -523,17 +523,17 @@ Proof.
         destruct (w_dbs w p) as [rs|] eqn:Es, (w_dbd w p) as [rd|] eqn:Ed; try contradiction; try exact I;
         destruct Hr as (bc & bs & Hs & Hd); exists bc, bs; split; try assumption.
       * intros s Hs' Hm. exfalso. destruct e; cbn [apply_edit] in Hs'.
-        -- rewrite upd_same in Hs'. inversion Hs'; subst. unfold is_modified in Hm. cbn in Hm. apply orb_false_elim in Hm. destruct Hm as [_ Hm].
+        -- rewrite upd_same in Hs'. inversion Hs'; subst. unfold is_modified in Hm. cbn in Hm. apply orb_false_elim in Hm. destruct Hm as [Hm _]. apply orb_false_elim in Hm. destruct Hm as [_ Hm].
            apply Z.ltb_ge in Hm. specialize (T3 rs eq_refl). lia.
         -- rewrite upd_same in Hs'. discriminate.
         -- destruct (w_src w p) as [f|] eqn:Ef; [|congruence]. rewrite upd_same in Hs'. inversion Hs'; subst. unfold is_modified in Hm. cbn in Hm.
-           apply orb_false_elim in Hm. destruct Hm as [_ Hm]. apply Z.ltb_ge in Hm. specialize (T3 rs eq_refl). lia.
+           apply orb_false_elim in Hm. destruct Hm as [Hm _]. apply orb_false_elim in Hm. destruct Hm as [_ Hm]. apply Z.ltb_ge in Hm. specialize (T3 rs eq_refl). lia.
       * intros d Hd' Hm. exfalso. destruct e; cbn [apply_edit] in Hd'.
-        -- rewrite upd_same in Hd'. inversion Hd'; subst. unfold is_modified in Hm. cbn in Hm. apply orb_false_elim in Hm. destruct Hm as [_ Hm].
+        -- rewrite upd_same in Hd'. inversion Hd'; subst. unfold is_modified in Hm. cbn in Hm. apply orb_false_elim in Hm. destruct Hm as [Hm _]. apply orb_false_elim in Hm. destruct Hm as [_ Hm].
            apply Z.ltb_ge in Hm. specialize (T4 rd eq_refl). lia.
         -- rewrite upd_same in Hd'. discriminate.
         -- destruct (w_dst w p) as [f|] eqn:Ef; [|congruence]. rewrite upd_same in Hd'. inversion Hd'; subst. unfold is_modified in Hm. cbn in Hm.
-           apply orb_false_elim in Hm. destruct Hm as [_ Hm]. apply Z.ltb_ge in Hm. specialize (T4 rd eq_refl). lia.
+           apply orb_false_elim in Hm. destruct Hm as [Hm _]. apply orb_false_elim in Hm. destruct Hm as [_ Hm]. apply Z.ltb_ge in Hm. specialize (T4 rd eq_refl). lia.
     + destruct sd; cbn [w_src w_dst w_dbs w_dbd]; repeat split; intros x Hx; cbn [w_src w_dst w_dbs w_dbd] in Hx;
         try (specialize (T1 x Hx); lia); try (specialize (T2 x Hx); lia); try (specialize (T3 x Hx); lia); try (specialize (T4 x Hx); lia).
       * destruct e; cbn [apply_edit] in Hx; [rewrite upd_same in Hx; inversion Hx; subst; cbn; lia | rewrite upd_same in Hx; discriminate|].
@@ -697,8 +697,8 @@ Proof.
     apply source_change_propagates. exists (rec_of s), (rec_of d), d. subst w2. cbn [w_src w_dst w_dbs w_dbd]. rewrite Fs, Fd, Ed.
     split; [reflexivity|]. split; [reflexivity|]. split; [reflexivity|]. split; [apply is_modified_rec_of|].
     destruct e; cbn [apply_edit]; rewrite ?Es, ?upd_same; try exact I; unfold is_modified, rec_of; cbn;
-      [assert (Hlt : (f_mtime s <? t + 2)%Z = true) by (apply Z.ltb_lt; specialize (T1 s eq_refl); lia); rewrite Hlt; apply orb_true_r|
-       assert (Hlt : (f_mtime s <? t + 2)%Z = true) by (apply Z.ltb_lt; specialize (T1 s eq_refl); lia); rewrite Hlt; apply orb_true_r].
+      [assert (Hlt : (f_mtime s <? t + 2)%Z = true) by (apply Z.ltb_lt; specialize (T1 s eq_refl); lia); rewrite Hlt; rewrite orb_true_r; reflexivity|
+       assert (Hlt : (f_mtime s <? t + 2)%Z = true) by (apply Z.ltb_lt; specialize (T1 s eq_refl); lia); rewrite Hlt; rewrite orb_true_r; reflexivity].
   - (* absent on both sides: the edit creates the file *)
     destruct (Hne eq_refl) as [N1 N2]. destruct e as [sz c| |]; try congruence. subst w2. cbn [w_src w_dst w_dbs w_dbd apply_edit]. rewrite upd_same.
     apply new_file_propagates; cbn [w_src w_dst w_dbs w_dbd]; try assumption. apply upd_same.
